@@ -31,7 +31,12 @@ int cmd_open(const Args& a) {
     OReg oreg; oreg.os = &os; Paths64 none;
     for (int ct = 0; ct <= 4; ++ct) for (int fr = 0; fr <= 3; ++fr) for (int pc = 0; pc <= 1; ++pc) for (int tree = 0; tree <= 1; ++tree) {
       if (ct == 0 && (fr || pc)) continue;
-      PolyTree64 t; ExecRes w = run_exec(S, O, C, ct, fr, pc, 0, tree ? &t : nullptr); ExecRes wo = run_exec(S, none, C, ct, fr, pc, 0, nullptr); nexec += 2;
+      // the tree execution is the SECOND Execute on the clipper that already executed into paths (no Clear in between)
+      ExecRes w; PolyTree64 t;
+      if (!tree) w = run_exec(S, O, C, ct, fr, pc, 0, nullptr);
+      else { Clipper64 c; c.PreserveCollinear(pc != 0); if (!S.empty()) c.AddSubject(S); c.AddOpenSubject(O); if (!C.empty()) c.AddClip(C);
+             Paths64 tmpc, tmpo; c.Execute((ClipType)ct, (FillRule)fr, tmpc, tmpo); w.ok = c.Execute((ClipType)ct, (FillRule)fr, t, w.open); w.closed = PolyTreeToPaths64(t); ++nexec; }
+      ExecRes wo = run_exec(S, none, C, ct, fr, pc, 0, nullptr); nexec += 2;
       int k = reg.get(w.closed), k0 = reg.get(wo.closed), ko = oreg.get(w.open);
       os << Ev("OExec").kn("ct", ct).kn("fr", fr).kn("pc", pc).kn("rs", 0).kn("tree", tree).kn("ok", w.ok).kn("k", k).kn("k0", k0).kn("ko", ko).str() << "\n";
     }
